@@ -50,6 +50,7 @@ PropC01(e) == e.ev = "rt" =>
    /\ e.msg2.sid = e.msg.sid /\ e.msg2.sys = e.msg.sys
    /\ ByteLevel(e.msg2.item) = ByteLevel(e.msg.item)           \* identical item tree
    /\ e.same2 /\ e.psame2                                     \* encoding again gives the same bytes
+   /\ ("rok" \in DOMAIN e) => (e.rok /\ e.rsame)             \* ... also when the frame arrived in a receive buffer that is used again and again
 
 \* ------------------------------------------------------------------ C02: the bytes are the E5 / E37 encoding
 PropC02(e) ==
@@ -90,6 +91,7 @@ PropC03(e) == e.ev \in {"rt", "dec"} =>
    LET r == DecMsg(e.bytes) IN
    /\ ~e.panic
    /\ e.ok = r.ok /\ e.pok = r.ok       \* the same verdict whatever lies behind the input in its buffer
+   /\ ("rok" \in DOMAIN e) => (e.rok = r.ok /\ (r.ok => (e.rsame <=> e.bytes = EncMsg(r.msg))))   \* ... or was in the buffer before
    /\ r.ok => /\ RecOf(e.msg2) = r.msg
               /\ Bytes2(e) = EncMsg(r.msg) /\ PBytes2(e) = EncMsg(r.msg)
 
